@@ -31,7 +31,7 @@ class T5:
 
     def __init__(self, name, file, func, cls=None, binders="", ret="Rat", env=None, attrs=None, assign=None, result=None,
                  monadic=True, methods=None, ctors=None, src=None, ignore=(), doc="", opt=None, super_call=None,
-                 init=(), copies=None, refine=None, ignore_assign=(), ret_types=None):
+                 init=(), copies=None, refine=None, ignore_assign=(), ret_types=None, refs=None):
         self.name, self.file, self.func, self.cls = name, file, func, cls
         self.binders, self.ret = binders, ret
         self.env = dict(env or {})          # python local / parameter name -> (lean, type)
@@ -51,9 +51,24 @@ class T5:
         self.refine = dict(refine or {})    # source of an isinstance test -> (lean Bool, {source text: (lean, type)} inside its branch)
         self.ignore_assign = set(ignore_assign)   # attributes whose assignment has no modelled effect (spatial index, caches)
         self.ret_types = dict(ret_types or {})    # type of a returned expression -> template of the returned model value
+        # reference view (objects held by reference and mutated in place; `is` tests): see `Ty.sloop`.  Keys: heap = (lean var,
+        # initial value, lean type), elem = (element type, lean type), fields = {attr: (projection, type)} value attributes of an
+        # element, ref_fields = {attr: projection} attributes holding an object reference, deref = template({heap},{ref}),
+        # obj_method = (lean fn on the dereferenced record, record template({FIELD}.., {obj}), {attr: field of the result},
+        # field of the result that is the moved referenced object), ref_method = lean fn on a dereferenced object,
+        # binders / args = what the loop body sees of the enclosing function
+        self.refs = refs
 
 
 TRANSFORM = "commonroad/geometry/transform.py"
+
+LEAN_WORDS = {"end", "from", "init", "at", "do", "then", "have", "show", "fun", "let", "in", "if", "else", "match", "with", "for",
+              "open", "section", "namespace", "instance", "structure", "class", "def", "theorem", "where", "by", "Type", "Prop",
+              "Sort", "st", "m", "heap", "mut", "return", "deriving", "variable", "universe", "export", "import", "local"}
+
+
+def lean_name(py):
+    return py + "_" if py in LEAN_WORDS else py
 
 
 class Ty:
@@ -63,6 +78,10 @@ class Ty:
         self.muts = set(v for v, _ in t.init)
         self.tmp = 0
         self.depth = 0
+        self.acc_kind = {}      # python name of a list / set of object references -> "ref" (objects) | "id" (their id())
+        self.in_sloop = None    # inside the body of a loop over elements that hold references: (python loop variable, heap var)
+        self.pre = []           # auxiliary definitions (loop bodies) emitted before the function
+        self.nloops = 0
 
     # ------------------------------------------------------------------ helpers
     def dotted(self, n):
@@ -149,6 +168,10 @@ class Ty:
                 if not ty.startswith("opt:"):
                     raise Unsupported(f"`is None` on {ty}")
                 return (f"({a}).isNone" if isinstance(op, ast.Is) else f"({a}).isSome", "bool")
+            if t.refs:
+                got = self.ref_compare(n.left, op, r)
+                if got:
+                    return got
             # static shape tests of to_/from_homogeneous_coordinates
             st = self.static_int(n.left), self.static_int(r)
             if st[0] is not None and st[1] is not None and isinstance(op, ast.Eq):
@@ -330,6 +353,26 @@ class Ty:
             return (f"({a}).reverse", "pts")
         if d == "copy.copy" and len(n.args) == 1:
             return self.e(n.args[0])
+        # ---- object references (targets with a reference view)
+        if t.refs and d == "id" and len(n.args) == 1 and not n.keywords:
+            a, ty = self.e(n.args[0])
+            self.need(ty, "ref", "id() of anything but an object held by reference")
+            return (a, "id")
+        if t.refs and d in ("any", "all") and len(n.args) == 1 and isinstance(n.args[0], (ast.GeneratorExp, ast.ListComp)):
+            g = n.args[0]
+            if len(g.generators) != 1 or g.generators[0].ifs or not isinstance(g.generators[0].target, ast.Name):
+                raise Unsupported(d + "(...) comprehension")
+            it, ity = self.e(g.generators[0].iter)
+            self.need(ity, "refacc", d + "(...) over anything but a local list of object references")
+            var = lean_name(g.generators[0].target.id)
+            saved = dict(self.env)
+            self.env[g.generators[0].target.id] = (var, self.acc_kind.get(self.acc_of(g.generators[0].iter), "ref"))
+            try:
+                c, cty = self.e(g.elt)
+            finally:
+                self.env = saved
+            self.need(cty, "bool", d + "(...) element")
+            return (f"({it}.{d} (fun {var} => {c}))", "bool")
         # ---- translated functions of transform.py
         for mod in ("", "commonroad.geometry.transform."):
             for fn, (lean, argt, rt) in FUNCS.items():
@@ -461,6 +504,8 @@ class Ty:
         if key in t.opt:
             raise Unsupported(f"in-place call on Optional {ast.unparse(recv)} outside `is not None`")
         a, ty = self.e(recv)
+        if t.refs and self.in_sloop and ty in (t.refs["elem"][0], "ref"):
+            return self.inplace_ref(recv, a, ty, pad)
         if ty not in t.methods or t.methods[ty][1] != "inplace":
             raise Unsupported(f"in-place translate_rotate on {ty}")
         if isinstance(recv, ast.Name):
@@ -526,7 +571,13 @@ class Ty:
                 return out
             # empty list accumulators
             if isinstance(tg, ast.Name) and ((isinstance(s.value, ast.List) and not s.value.elts)
-                                             or (isinstance(s.value, ast.Call) and self.dotted(s.value.func) == "list" and not s.value.args)):
+                                             or (isinstance(s.value, ast.Call) and self.dotted(s.value.func) in (("list", "set") if t.refs else ("list",))
+                                                 and not s.value.args and not s.value.keywords)):
+                if t.refs:
+                    if self.in_sloop or self.depth > 0:
+                        raise Unsupported("list of references created inside a loop / branch")
+                    self.env[tg.id] = (lean_name(tg.id), "refacc")
+                    return f"{pad}let {lean_name(tg.id)} : List Nat := []\n"
                 self.env[tg.id] = (tg.id, "acc")
                 return ""
             v, ty = self.e(s.value)
@@ -539,6 +590,14 @@ class Ty:
             if isinstance(c.func, ast.Attribute) and c.func.attr == "translate_rotate":
                 self.motion_args(c)
                 return self.inplace(c.func.value, ind)
+            if t.refs and isinstance(c.func, ast.Attribute) and c.func.attr in ("append", "add") and isinstance(c.func.value, ast.Name) \
+                    and len(c.args) == 1 and not c.keywords and self.env.get(c.func.value.id, (None, None))[1] == "refacc":
+                if not self.in_sloop:
+                    raise Unsupported("reference list filled outside the loop")
+                acc = self.env[c.func.value.id][0]
+                v, vty = self.e(c.args[0])
+                self.need(vty, self.acc_kind.get(c.func.value.id), f"element added to {c.func.value.id}")
+                return f"{pad}{acc} := {acc} ++ [{v}]\n"
             raise Unsupported(f"statement call {d}")
         if isinstance(s, ast.If):
             # `if <optional attribute> is not None: <body using it>`
@@ -635,6 +694,10 @@ class Ty:
         else:
             raise Unsupported("loop target")
         lst_lean, ety = self.iterable(it)
+        if self.t.refs and ety == self.t.refs["elem"][0]:
+            if index_of or store_back:
+                raise Unsupported("indexed loop over elements that hold references")
+            return self.sloop(s, var, lst_lean, ind)
         if len(body) != 1:
             raise Unsupported("loop body with several statements")
         b = body[0]
@@ -682,12 +745,149 @@ class Ty:
         var, tmpls = self.target(it)
         return var
 
+    # ------------------------------------------------------------------ reference view
+    def acc_of(self, n):
+        return n.id if isinstance(n, ast.Name) else None
+
+    def ref_compare(self, left, op, right):
+        """`a is b` / `a is not b` on two objects held by reference; `==` / `!=` / `in` / `not in` on their `id()`s: equality of the
+        heap indices.  `==` / `in` on the OBJECTS goes by `__eq__` (by value for a GoalRegion: CR.PyC05.goalEq on what the two
+        references hold) - not the identity test, and the tie to the model's loop over identities is then not provable."""
+        try:
+            (a, ta), (b, tb) = self.e(left), self.e(right)
+        except Unsupported:
+            return None
+        if ta not in ("ref", "id") and tb not in ("ref", "id", "refacc"):
+            return None
+        neg = isinstance(op, (ast.IsNot, ast.NotEq, ast.NotIn))
+        if isinstance(op, (ast.In, ast.NotIn)):
+            kind = self.acc_kind.get(self.acc_of(right))
+            if tb != "refacc" or ta != kind:
+                raise Unsupported(f"`in`: {ta} in {tb}")
+            g = self.fresh("g")
+            if kind == "id":
+                c = f"({b}.any (fun {g} => decide ({a} = {g})))"
+            else:       # `x in list`: `x is e or x == e` per element, and `==` on the objects goes by VALUE
+                c = f"({b}.any (fun {g} => decide ({a} = {g}) || {self.val_eq(a, g)}))"
+            return (f"(!{c})" if neg else c, "bool")
+        if isinstance(op, (ast.Is, ast.IsNot)):
+            if ta != "ref" or tb != "ref":
+                raise Unsupported(f"`is` between {ta} and {tb}")
+        elif isinstance(op, (ast.Eq, ast.NotEq)):
+            if ta == "ref" and tb == "ref":     # `==` on the objects: __eq__, by VALUE - not the identity test
+                c = self.val_eq(a, b)
+                return (f"(!{c})" if neg else c, "bool")
+            if ta != "id" or tb != "id":
+                raise Unsupported(f"`==` between {ta} and {tb}")
+        else:
+            raise Unsupported("comparison of object references")
+        return (f"decide ({a} {'≠' if neg else '='} {b})", "bool")
+
+    def val_eq(self, a, b):
+        R = self.t.refs
+        if not self.in_sloop or "val_eq" not in R:
+            raise Unsupported("`==` on objects held by reference")
+        heap = self.in_sloop[1]
+        return f"({R['val_eq']} {R['deref'].format(heap=heap, ref=a)} {R['deref'].format(heap=heap, ref=b)})"
+
+    def inplace_ref(self, recv, a, ty, pad):
+        """`x.translate_rotate(..)` on a loop element that holds an object by reference (dereference, call the method on the
+        record, write the moved object back to the heap) / `x.goal.translate_rotate(..)` on the referenced object itself."""
+        R = self.t.refs
+        var, heap = self.in_sloop
+        if ty == "ref":
+            o = self.fresh("o")
+            return (f"{pad}let {o} ← {R['ref_method']} ({R['deref'].format(heap=heap, ref=a)})\n"
+                    f"{pad}{heap} := {heap}.set {a} {o}\n")
+        if not (isinstance(recv, ast.Name) and recv.id == var):
+            raise Unsupported("in-place call on another element than the loop variable")
+        fn, rec, back, moved = R["obj_method"]
+        ref = self.env[(var, next(iter(R["ref_fields"])))][0]
+        vals = {attr: self.env[(var, attr)][0] for attr in R["fields"]}
+        o = self.fresh("o")
+        out = f"{pad}let {o} ← {fn} {rec.format(obj=R['deref'].format(heap=heap, ref=ref), **vals)}\n"
+        done = set()
+        for attr, fld in back.items():
+            lv = self.env[(var, attr)][0]
+            if lv not in done:
+                out += f"{pad}{lv} := {o}.{fld}\n"
+                done.add(lv)
+        out += f"{pad}{heap} := {heap}.set {ref} {o}.{moved}\n"
+        return out
+
+    def sloop(self, s, var, lst_lean, ind):
+        """`for x in <elements that hold object references>: <body>`: the body becomes a definition of its own
+        `<name>_loop<k> (st : heap × reference lists) (x : element) : Res (element × state)`, the loop `CR.PyC05.forEachS` of it."""
+        t, R = self.t, self.t.refs
+        pad = "  " * ind
+        if self.depth > 0 or self.in_sloop:
+            raise Unsupported("nested loop over elements that hold references")
+        heap, _, heap_ty = R["heap"]
+        accs = [(py, lean) for py, (lean, ty) in self.env.items() if isinstance(py, str) and ty == "refacc"]
+        for py, _ in accs:       # what the list holds: the objects or their id()
+            kinds = {("id" if isinstance(c.args[0], ast.Call) and self.dotted(c.args[0].func) == "id" else "ref")
+                     for c in ast.walk(s) if isinstance(c, ast.Call) and isinstance(c.func, ast.Attribute)
+                     and c.func.attr in ("append", "add") and isinstance(c.func.value, ast.Name) and c.func.value.id == py
+                     and len(c.args) == 1}
+            if len(kinds) > 1:
+                raise Unsupported(f"{py} holds objects and ids")
+            self.acc_kind[py] = kinds.pop() if kinds else "ref"
+        comps = [(heap, heap_ty)] + [(lean, "List Nat") for _, lean in accs]
+        st_ty = " × ".join(ty for _, ty in comps)
+
+        def proj(k):
+            if len(comps) == 1:
+                return "st"
+            return "st" + ".2" * k + (".1" if k < len(comps) - 1 else "")
+        self.nloops += 1
+        name = f"{t.name}_loop{self.nloops}"
+        x = lean_name(var)
+        saved_env, saved_assign, saved_muts = dict(self.env), dict(t.assign), set(self.muts)
+        self.env = {k: v for k, v in t.env.items()}
+        for py, lean in accs:
+            self.env[py] = (lean, "refacc")
+        self.env[var] = (x, R["elem"][0])
+        body = "".join(f"  let mut {lean} := {proj(k)}\n" for k, (lean, _) in enumerate(comps))
+        self.muts |= {lean for lean, _ in comps}
+        fvars = {}
+        for attr, (pr, ty) in R["fields"].items():
+            if pr not in fvars:
+                fvars[pr] = f"{x}_{attr.lstrip('_')}"
+                body += f"  let mut {fvars[pr]} := {x}{pr}\n"
+                self.muts.add(fvars[pr])
+            self.env[(var, attr)] = (fvars[pr], ty)
+            t.assign[(var, attr)] = (fvars[pr], {ty: "{v}"})
+        for attr, pr in R["ref_fields"].items():
+            self.env[(var, attr)] = (f"{x}{pr}", "ref")
+        self.in_sloop = (var, heap)
+        try:
+            body += self.block(list(s.body), 1, nested=False)
+        finally:
+            self.in_sloop = None
+            self.env, t.assign, self.muts = saved_env, saved_assign, saved_muts
+        elem = R["elem_result"].format(x=x, **{a.lstrip("_"): v for a, v in
+                                                 ((attr, fvars[pr]) for attr, (pr, _) in R["fields"].items())})
+        state = "(" + ", ".join(lean for lean, _ in comps) + ")" if len(comps) > 1 else comps[0][0]
+        body += f"  return ({elem}, {state})\n"
+        self.pre.append(f"/-- {t.file}: {(t.cls + '.') if t.cls else ''}{t.func} — the body of its loop `for {var} in ...` on the reference view: "
+                        f"`st` = the heap of referenced objects and the local lists of references -/\n"
+                        f"def {name} {R['binders']} (st : {st_ty}) ({x} : {R['elem'][1]}) : Res (({R['elem'][1]}) × ({st_ty})) := do\n{body}")
+        r = self.fresh("r")
+        dest = self.loop_dest(s.iter)
+        out = f"{pad}let {r} ← CR.PyC05.forEachS ({name} {R['args']}) {state} {lst_lean}\n{pad}{dest} := {r}.1\n"
+        for k, (lean, _) in enumerate(comps):
+            out += f"{pad}let {lean} := {r}.2" + proj(k)[2:] + "\n"
+        return out
+
     # ------------------------------------------------------------------ whole function
     def function(self, fn):
         t = self.t
         body = ""
         stmts = list(fn.body)
-        out = "".join(f"  let mut {v} := {x}\n" for v, x in t.init) + self.block(stmts, 1, nested=False)
+        out = "".join(f"  let mut {v} := {x}\n" for v, x in t.init)
+        if t.refs:
+            out += f"  let {t.refs['heap'][0]} := {t.refs['heap'][1]}\n"
+        out += self.block(stmts, 1, nested=False)
         ends_with_return = bool(stmts) and isinstance(stmts[-1], ast.Return)
         if not ends_with_return:
             if t.result is None:
@@ -697,7 +897,7 @@ class Ty:
             raise Unsupported("partial operation in a target declared pure")
         head = f"def {t.name} {t.binders} : " + (f"Res ({t.ret}) := do\n" if t.monadic else f"{t.ret} := Id.run do\n")
         doc = f"/-- {t.file}: {(t.cls + '.') if t.cls else ''}{t.func}{(' — ' + t.doc) if t.doc else ''} -/\n"
-        return doc + head + body + out
+        return "\n".join(self.pre) + ("\n" if self.pre else "") + doc + head + body + out
 
 
 # translated module-level functions of transform.py: python name -> (lean name, argument types, result type)
@@ -902,10 +1102,22 @@ def targets():
            f"(m : {R}Mo) (pp : {R}Problem)", R + "Problem", env=MO, attrs={**a, **a2}, assign={**w, **w2},
            methods={**state_m, "goal": ("GoalRegion_translate_rotate m", "inplace", "goal")},
            init=[("ini", "pp.init"), ("goal", "pp.goal")], result="(⟨ini, goal⟩ : " + R + "Problem)"))
-    a, w = rw("l", "list:problem", "_planning_problem_dict", "planning_problem_dict")
+    # the set on the REFERENCE view (CR.Rigid.ProblemSet): `goals` is the heap of GoalRegion objects, a problem holds its initial state
+    # and the index of its goal-region object - two problems may hold the same object, `a.goal is b.goal` is equality of indices
+    a, w = rw("l", "list:problemref", "_planning_problem_dict", "planning_problem_dict")
     add(T5("PlanningProblemSet_translate_rotate", "commonroad/planning/planning_problem.py", TR, "PlanningProblemSet",
-           f"(m : {R}Mo) (l : List {R}Problem)", f"List {R}Problem", env=MO, attrs=a, assign=w,
-           methods={"problem": (R + "Problem.move m", "inplace", "problem")}, init=[("l", "l")], result="l"))
+           f"(m : {R}Mo) (ps : {R}ProblemSet)", f"{R}ProblemSet", env=MO, attrs=a, assign=w, methods=state_m,
+           init=[("l", "ps.problems")], result="(⟨heap, l⟩ : " + R + "ProblemSet)",
+           refs={"heap": ("heap", "ps.goals", f"List (List {R}State)"), "elem": ("problemref", f"{R}State × Nat"),
+                 "fields": {"initial_state": (".1", "state"), "_initial_state": (".1", "state")},
+                 "ref_fields": {"goal": ".2", "_goal": ".2"}, "elem_result": "({initial_state}, {x}.2)",
+                 "deref": "(" + R + "goalAt {heap} {ref})",
+                 "obj_method": (R + "Problem.move m", "(⟨{initial_state}, {obj}⟩ : " + R + "Problem)",
+                                {"initial_state": "init", "_initial_state": "init"}, "goal"),
+                 "ref_method": "GoalRegion_translate_rotate m", "val_eq": "CR.PyC05.goalEq", "binders": f"(m : {R}Mo)", "args": "m"},
+           doc="on the reference view: `ps.goals` = the GoalRegion objects (an index is an identity), a problem = (initial state, "
+               "index of the goal-region object it holds); `x.translate_rotate` on a problem = PlanningProblem.translate_rotate on "
+               "the dereferenced record (model Problem.move, tied above), the moved goal region written back to the heap"))
     return ts
 
 
